@@ -15,7 +15,7 @@ Not decided: that s1 = c - s2*h is computed correctly by the NTT for all inputs 
 from fv.absint import St, Pt, Ag, I, Sq, En, Md, Fl
 from fv.oracle import SPEC, Q, derived, pqclean
 from .common import Session, record_obligations
-from . import c03, effects, skeleton
+from . import c03, c14, effects, skeleton
 
 LEVEL = "other"
 TECHNIQUE = "CTFE/abstract evaluation of the parameter table vs spec and PQClean; predicate extraction from verify's return value; ingredient labels; effect analysis"
@@ -162,9 +162,9 @@ def run(R):
         R.check(okc, "C02-pred", vsite, f"accept <=> X <= {spec['beta2']} (= floor(beta^2)) at {cmps[0][1] if cmps else '?'}",
                 "acceptance predicate is " + "; ".join(f"X {'<=' if a[0] == 'le' else '>='} {a[2]} at {w}" for a, w in cmps) + f" — specification: X <= {spec['beta2']}",
                 key=f"pred|{N}", data={"found": [(a[0], a[2]) for a, _ in cmps], "want": spec["beta2"]})
-        need = {"salt", "m", "s", "h"}
-        R.check(need <= xlabs, "C02-flow", vsite, "the compared quantity depends on salt, message, signature body and public key",
-                f"X depends only on {sorted(xlabs)}", key=f"xdeps|{N}")
+        need = {("H", "salt"), ("H", "m"), "s", "h"}
+        R.check(need <= xlabs, "C02-flow", vsite, "the compared quantity depends on H(salt, message), the signature body and the public key",
+                f"X depends only on {sorted(map(str, xlabs))}", key=f"xdeps|{N}")
         # (4) the two sums of squares
         s2sum = [s for s in sums if s[1] and s[1] <= {"s"}]
         s1sum = [s for s in sums if need <= s[1]]
@@ -175,7 +175,7 @@ def run(R):
         lim1 = (Q // 2) ** 2
         R.check(len(s1sum) == 1 and s1sum[0][0][0] >= 0 and s1sum[0][0][1] <= lim1 and s1sum[0][2] == (N, N), "C02-ingr", vsite + " ||s1||^2",
                 f"one sum over {N} squares of centred representatives (each at most {lim1}) that depend on all four inputs",
-                f"sums over terms depending on all inputs: {[(s[0], sorted(s[1]), s[2]) for s in s1sum]} (expected one, {N} terms, each term <= {lim1} = 6144^2)", key=f"s1|{N}")
+                f"sums over terms depending on all inputs: {[(s[0], sorted(map(str, s[1])), s[2]) for s in s1sum]} (expected one, {N} terms, each term <= {lim1} = 6144^2)", key=f"s1|{N}")
         R.check(len(sums) == 2, "C02-ingr", vsite, "exactly two sums feed the norm", f"{len(sums)} sums observed", key=f"nsums|{N}")
         # decompress gets the stored body and N
         okd = len(dec) == 1 and dec[0][1] == N and type(dec[0][0]) is Pt and dec[0][0].key == ("h", "sig")
@@ -183,5 +183,8 @@ def run(R):
         # (3) effects
         inst = S.find(f"falcon::verify::<{N}>")
         effects.cone_is_deterministic(R, prog, [inst.id], "C02-effects", vsite, floor_instances=150)
+    # c = HashToPoint(salt || m): the clauses of C14 are shared rule instances
+    S2 = Session()
+    c14.core(R, S2, "C02-hash")
     R.analysed["unsupported"] = S.unsupported[:10]
     R.floor("variants", 2, 2)
